@@ -78,6 +78,7 @@ def gen_scenario(rng, idx):
           "port": rng.choice([80, 8080, 0, 65535]), "text": rng.choice(["", "0361 3d31".replace(" ", ""), "00"]),
           "v4": v4, "v6": v6, "host_ttl": rng.choice([120, 120, 1, 4500, 10]), "other_ttl": rng.choice([4500, 4500, 1125, 10, 1]),
           "ttl_arg": rng.choice([None, None, None, 60]), "allow": rng.random() < 0.7, "pre": [], "inj": [],
+          "weight": rng.choice([0, 5, 7]), "priority": rng.choice([0, 3, 9]),
           "delays": [rng.choice([0, 1, 10, 50, 87, 88, 100, 149, 150, 174, 175, 176]) for _ in range(6)] + [rng.randint(0, 150) for _ in range(40)],
           "seed": rng.randrange(1 << 30)}
 
@@ -133,6 +134,7 @@ def make_info(sc, name=None, port=None):
 
     addrs = [bytes.fromhex(a) for a in sc["v4"] + sc["v6"]]
     return ServiceInfo(sc["type"], name or "%s.%s" % (sc["inst"], sc["type"]), sc["port"] if port is None else port,
+                       weight=sc.get("weight", 0), priority=sc.get("priority", 0),
                        properties=bytes.fromhex(sc["text"]), server=sc["server"], host_ttl=sc["host_ttl"], other_ttl=sc["other_ttl"],
                        addresses=addrs)
 
@@ -407,8 +409,8 @@ def svc_tokens(sc, name, ttl_arg):
     other_ttl = sc["other_ttl"] if ttl_arg is None else ttl_arg
     # server=None: set_server_if_missing copies the name the info had at its first registration
     server = sc["server"] or "%s.%s" % (sc["inst"], sc["type"])
-    return "%s %s %s %d 0 0 %s %d %s %d %s %d %d" % (
-        C.hs(sc["type"]), C.hs(name), C.hs(server), sc["port"], C.hx(bytes.fromhex(sc["text"])),
+    return "%s %s %s %d %d %d %s %d %s %d %s %d %d" % (
+        C.hs(sc["type"]), C.hs(name), C.hs(server), sc["port"], sc.get("weight", 0), sc.get("priority", 0), C.hx(bytes.fromhex(sc["text"])),
         len(sc["v4"]), " ".join(sc["v4"]), len(sc["v6"]), " ".join(sc["v6"]), host_ttl, other_ttl)
 
 
@@ -565,6 +567,10 @@ def oracle(sc, obs, res, case):
                     viol.append(("C09:probe-gap", "consecutive probes for one name %d ms apart" % (tb - ta)))
             ann = announcements_of(obs, info_id, t_from, t_to) if info_id is not None else []
             registered = any(e[0] == "regadd" and e[2] == obs["reg"] and e[3] == fin and e[1] == call["t_end"] for e in obs["ev"])
+            api = obs["results"][ci][0] if ci < len(obs["results"]) else None
+            if not registered and api == "ok":
+                # async_register_service returned normally, yet the name did not enter the registry at the instant the check ended
+                viol.append(("C09:not-registered-after-check", "the check completed and async_register_service returned, but registry.async_add(%r) was not observed at that instant" % fin))
             if registered:
                 Tl = probes[-1][0] if probes else call["t_end"]
                 times = [a[0] for a in ann]
@@ -642,7 +648,7 @@ def check_announcement(sc, obs, name, data):
     server = f["server"]  # with server=None: the name the info had when it was first registered (see the known finding)
     want = []
     want.append(("ptr", sc["type"], const._TYPE_PTR, False, other_ttl, name))
-    want.append(("srv", name, const._TYPE_SRV, True, host_ttl, (sc["port"], server)))
+    want.append(("srv", name, const._TYPE_SRV, True, host_ttl, (sc.get("priority", 0), sc.get("weight", 0), sc["port"], server)))
     want.append(("txt", name, const._TYPE_TXT, True, other_ttl, sc["text"]))
     for a in sc["v4"]:
         want.append(("a", server, const._TYPE_A, True, host_ttl, a))
@@ -658,7 +664,7 @@ def check_announcement(sc, obs, name, data):
         if isinstance(r, d.DNSPointer):
             got.append(("ptr", r.name, r.type, r.unique, r.ttl, r.alias))
         elif isinstance(r, d.DNSService):
-            got.append(("srv", r.name, r.type, r.unique, r.ttl, (r.port, r.server)))
+            got.append(("srv", r.name, r.type, r.unique, r.ttl, (r.priority, r.weight, r.port, r.server)))
         elif isinstance(r, d.DNSText):
             got.append(("txt", r.name, r.type, r.unique, r.ttl, r.text.hex()))
         elif isinstance(r, d.DNSAddress):
